@@ -476,7 +476,7 @@ func (fs faultsim) Shrinks(c *Case) []*Case {
 
 func init() {
 	fs := faultsim{}
-	register(&Info{Prop: "C08", Engine: altEngine{[]Engine{fs, fs, schedsim{}}}, Level: "fault_enumeration", QuickS: 60, ThoroughS: 900,
+	register(&Info{Prop: "C08", Engine: altEngine{[]Engine{fs, fs, schedsim{}, fs, sizesim{}, schedsim{}}}, Level: "fault_enumeration", QuickS: 60, ThoroughS: 900,
 		RealStub: "real: all of bbolt (tag verif), real file + mmap on tmpfs; injected: the k-th pwrite/fdatasync/ftruncate/fsync/mmap/munmap/mlock/munlock call of one commit fails once (EIO, ENOSPC, short write) through the I/O hooks; simulated: map iteration order",
 		Rule:     "per seeded history one commit is chosen; a probe pass counts the I/O calls that commit issues; evaluations = re-executions of the history with the k-th call failing, for every k and fault kind in thorough (a sample incl. the meta write and the final sync in quick), with and without read transactions held across the failure, followed by the rest of the history, close and reopen. distinct_nontrivial = distinct (history, target commit, k, kind) in which the fault really fired. Every third run index is the concurrent arm: 1-3 writer tasks and 0-3 reader tasks under the token scheduler while 1-3 I/O faults (EIO / short write / ENOSPC at tape-chosen I/O calls) hit whichever commits are running; the failing Commit/Update must return an error and leave no version behind, readers of every age (also those that begin or are mid-dump during the failing commit and its rollback) keep their snapshot, waiting and later writers proceed (a task that can never run again is reported with the lock table), ids stay consecutive, and after the run a clean reopen shows exactly the newest acknowledged version with exact page accounting (distinct there = schedule fingerprints of runs in which a fault fired and a pre-emption happened)",
 		Assume:   []string{"faults are injected only between Begin(true) and the return of Commit", "a short write is always reported with an error", "the final-sync exception allows exactly {whole old state, whole new state}, identical in process and after reopen", "listed finding F6 (final sync fails while a reader is open) is excluded from exploration by a guard and covered by its canonical reproducer", "concurrent arm: failures of the final sync and of mmap/munmap are left to the sequential arm"}})
